@@ -320,6 +320,43 @@ func checkC07(c *Ctx) {
 		r.Anchor("C07-TAB", t)
 	}
 
+	// ---- C07-VER (thorough tier): with version bits 0, 1 or 3 no decoder is ever invoked
+	if c.Tier == "thorough" {
+		var mu sync.Mutex
+		bad := map[int]int{}
+		parallelFor(256, func(pt int) {
+			for v := 0; v < 4; v++ {
+				if v == 2 {
+					continue
+				}
+				for fmtv := 0; fmtv < 32; fmtv++ {
+					for pb := 0; pb < 2; pb++ {
+						m := newPE(c)
+						raw := rawInput(m, v<<6|pb<<5|fmtv, pt)
+						invoked := false
+						m.Hooks.Call = func(m *pe.Machine, call ssa.CallInstruction, callee *ssa.Function, args []pe.Val) (bool, pe.Val) {
+							cc := call.Common()
+							if cc.IsInvoke() && cc.Method.Name() == "Unmarshal" {
+								invoked = true
+								return true, pe.U
+							}
+							return false, pe.U
+						}
+						runPE(c, m, un, []pe.Val{raw})
+						if invoked {
+							mu.Lock()
+							bad[v]++
+							mu.Unlock()
+						}
+					}
+				}
+			}
+		})
+		for _, v := range []int{0, 1, 3} {
+			r.Check(bad[v] == 0, "C07-VER", fmt.Sprintf("unmarshal/version-%d-reaches-no-decoder", v), p.Pos(un.Pos()),
+				"for all 2x32x256 header values with this version no decoder is invoked", fmt.Sprintf("%d header values with version %d reach a decoder", bad[v], v))
+		}
+	}
 	// ---- C07-SELF
 	r.Floor("C07-SELF", 13)
 	exempt := map[string]string{
